@@ -1,5 +1,6 @@
 """K10: lock-order graph, blocking operations and user callbacks under a lock (R10.5, R12.5, R20.4)."""
 from cachelib import *
+import re
 
 LOCK_FNS = ("Mutex::lock", "RwLock::read", "RwLock::write", "RwLock::upgradable_read", "Mutex::try_lock", "RwLock::try_read", "RwLock::try_write")
 BLOCKING = ("Sender::send", "Receiver::recv", "WaitGroup::wait", "JoinHandle::join", "thread::sleep", "thread::park", "Condvar::wait", "Receiver::recv_timeout",
@@ -184,6 +185,51 @@ class LockSummaries:
         return out
 
 
+_FN_VALUE_CALL = re.compile(r"ops::(function::)?(Fn::call|FnMut::call_mut|FnOnce::call_once)$")
+
+
+def locks_over_param_calls(facts, cb):
+    """Lock classes under which the function `cb` (or one of its closures) calls a function value that is not a closure
+    literal of its own - i.e. a callable it was handed by its caller: directly in the region where a guard is alive, or in
+    a closure that is itself handed to a call made in such a region (`shard.write().drain().for_each(|x| f(x))`)."""
+    fam = [cb] + [y for y in descendants(facts, cb) if y is not cb]
+    under = {}   # id(body) -> set of classes the whole body may run under
+    out = set()
+
+    def fn_value_calls(y, blocks=None):
+        for bi, t in y.calls():
+            if blocks is not None and bi not in blocks:
+                continue
+            if _FN_VALUE_CALL.search(strip_generics(y.callee_of(t)) or "") or _FN_VALUE_CALL.search(t.get("callee", "")):
+                if not closure_of_call(y, t):   # not a closure literal written right here
+                    yield bi, t
+    changed = True
+    rounds = 0
+    while changed and rounds < 4:
+        changed = False
+        rounds += 1
+        for y in fam:
+            regions = []
+            for bi, t, cls in lock_sites(y):
+                region, _esc = held_region(y, bi, t)
+                regions.append((cls, region))
+            for cls in under.get(id(y), set()):
+                regions.append((cls, set(y.live_blocks())))
+            for cls, region in regions:
+                for bi, t in fn_value_calls(y, region):
+                    out.add(cls)
+                for x in sorted(region):
+                    tt = y.blocks[x]["term"]
+                    if not tt or tt["k"] != "call":
+                        continue
+                    for ce in closure_of_call(y, tt):
+                        for clb in facts.by_path.get(ce[1], []):
+                            if cls not in under.setdefault(id(clb), set()):
+                                under[id(clb)].add(cls)
+                                changed = True
+    return out
+
+
 def check_lock_order(rep, fl, rule="R20.4"):
     facts = fl.facts
     ls = LockSummaries(facts)
@@ -240,7 +286,7 @@ def check_lock_order(rep, fl, rule="R20.4"):
                 continue
             callee_bodies = facts.by_path.get(tt.get("resolved") or tt.get("callee"), [])
             for cb in callee_bodies:
-                held = ls.direct.get(id(cb), set())
+                held = set(ls.direct.get(id(cb), set())) | locks_over_param_calls(facts, cb)
                 for ce in cls_args:
                     for clb in facts.by_path.get(ce[1], []):
                         for c2 in ls.acquires(clb):
